@@ -74,6 +74,15 @@ func c07Gen(seed uint64, tier string) any {
 		g := NewProgGen(r.Fork(), o)
 		sc.Setup = g.Stmts(r.Range(0, 2))
 		sc.Src = g.Program(r.Range(1, 4))
+		if r.Chance(1, 4) {
+			sc.Setup = nil
+			sc.Src = Pick(r, []string{
+				"&cv = 40d6; cv; 7", "&cv = 30d4; cv + cv + cv", "&cv = 25d6; func ff() { return cv }; ff(); 7", "&cv = 20d6; func ff() { return cv + 1 }; j = 0; while j < 3 { ff(); j = j + 1 }; j",
+				"func gg() { return 30d6 }; &cv = gg() + gg(); cv", "&c1 = 15d6; &c2 = c1 + c1; c2 + c1", "func ff(n0) { if n0 > 0 { return ff(n0 - 1) + 3d6 }; return 0 }; ff(4)",
+				"&cv = 12d6k3; xs = [cv, cv, cv]; xs.sum()", "&cv = `{10d6} {5d8}`; cv", "func ff() { return [1,2,3,4].shuffle() }; &cv = ff(); cv; cv.compute()",
+				"&cv = 9d6; func g1() { return cv }; func g2() { return g1() + g1() }; g2()",
+			})
+		}
 	}
 	return sc
 }
@@ -169,6 +178,7 @@ type c07Run struct {
 	cancelled bool
 	fate, coc int64
 	wodDC     int64
+	calls     int64 // sub-VM entries (function calls, computed loads): 100 operations each
 }
 
 func c07Eval(sc *C07Scenario, limit int64, parseLimit uint64, m *Meter, budget int64, src string) c07Run {
@@ -189,7 +199,12 @@ func c07Eval(sc *C07Scenario, limit int64, parseLimit uint64, m *Meter, budget i
 	m.Reset()
 	m.Budget = budget
 	var r c07Run
+	seenCtx := map[*ds.Context]bool{}
 	m.OnStep = func(s *ds.VerifStep) bool {
+		if s.Depth > 0 && !seenCtx[s.Ctx] {
+			seenCtx[s.Ctx] = true
+			r.calls++
+		}
 		switch ds.VerifOpName(s.Code) {
 		case "dice.fate":
 			r.fate++
@@ -267,13 +282,13 @@ func c07Exec(raw json.RawMessage, res *RunResult) {
 		// accounting: every instruction and every die is in the counter (the constant dice of a
 		// Fate / CoC instruction excepted: 4 resp. 1 per instruction)
 		if base.o.Err == "" {
-			min := base.steps + base.rolls - 4*base.fate - base.coc
+			min := base.steps + base.rolls - 4*base.fate - base.coc + 100*base.calls
 			if base.o.NumOp < min {
 				site := "other"
 				if base.wodDC > 0 {
 					site = "wod/dc"
 				}
-				res.Violate("accounting:uncounted-work@"+site, "NumOpCount=%d after an evaluation that dispatched %d instructions and rolled %d dice (%d Fate, %d CoC instructions): at least %d expected\n  src=%q", base.o.NumOp, base.steps, base.rolls, base.fate, base.coc, min, sc.Src)
+				res.Violate("accounting:uncounted-work@"+site, "NumOpCount=%d after an evaluation that dispatched %d instructions (sub-VMs included), rolled %d dice (%d Fate, %d CoC instructions) and entered %d sub-VM(s) at 100 each: at least %d expected\n  setup=%q\n  src=%q", base.o.NumOp, base.steps, base.rolls, base.fate, base.coc, base.calls, min, sc.Setup, sc.Src)
 			}
 		}
 		N := base.o.NumOp
@@ -426,7 +441,7 @@ func c07Shrink(raw json.RawMessage) []json.RawMessage {
 func init() {
 	Register(&Check{
 		ID: "C07", Level: "fault_enumeration",
-		QuickRuns: 2200, ThoroughRuns: 150000,
+		QuickRuns: 1300, ThoroughRuns: 100000,
 		Gen: c07Gen, Exec: c07Exec, Shrink: c07Shrink,
 		Rule: "four families. sweep: a generated program is costed without a budget (N operations), then re-run with OpCountLimit = k for EVERY k <= min(N+1, 400) plus sampled larger k; each run must report the budget or return exactly the full program's outcome, within 16k+4096 ticks of the simulated clock (instruction dispatches + Roll calls); the fault-free run's NumOpCount must cover every instruction and die (constant dice of Fate/CoC instructions excepted). adversarial: resource-hungry programs (huge counts, exploding pools, recursion, doubling containers/strings, endless loops) under budgets {small, 30000} x normal/min/max mode: must end within the tick bound, with an error once over budget. parse: ParseExprLimit = k for k = 1..40 and 40 sampled larger values: error or full outcome, never a panic. capacity: scaled program families whose value is known by construction (n-term sums, n nested blocks / template holes / templates / parentheses, n-element ranges, concats, repeats, literals, n-deep call chains, n pending operands), n across each built-in limit: the known value or an error. distinct = distinct (family, program, n); non-trivial = cost >= 5 operations (sweep) / n > 3 (capacity)",
 		Real: []string{"dicescript parser, compiler, VM, roll functions with their budget accounting"},
